@@ -14,13 +14,14 @@ package lexer
 //@ pred tinv(tl *TLexer) bool := tl != nil && tl.writep == len(tl.stack) && -1 <= tl.readp && tl.readp <= tl.writep - 1
 //@     && (forall j :: 0 <= j && j < len(tl.pointers) ==> -1 <= tl.pointers[j] && tl.pointers[j] <= tl.writep - 1)
 //@     && (tl.lexer.eof ==> tl.writep >= 1) && lwf(&tl.lexer) && (tl.writep == 0 ==> lclean(&tl.lexer))
+//@     && (forall k :: 0 <= k && k < len(tl.stack) ==> 0 <= tl.stack[k].from && tl.stack[k].from <= tl.stack[k].to && tl.stack[k].to <= len(tl.lexer.input))   // every cached position lies inside the input
 //@ pred cacheKept(tl *TLexer) bool := forall i :: 0 <= i && i < old(tl.writep) ==> tl.stack[i] == old(tl.stack[i])
 //@ pred pointersKept(tl *TLexer) bool := len(tl.pointers) == old(len(tl.pointers)) && (forall j :: 0 <= j && j < len(tl.pointers) ==> tl.pointers[j] == old(tl.pointers[j]))
 //
 //@ func (*TLexer).Next [C13,C06]
 //@   requires tinv(tl)
 //@   modifies tl.readp, tl.writep, tl.stack, elems(tl.stack), tl.lexer
-//@   ensures[inv]    tinv(tl) && pointersKept(tl) && cacheKept(tl)
+//@   ensures[inv]    tinv(tl) && pointersKept(tl) && cacheKept(tl) && tl.lexer.input == old(tl.lexer.input)
 //@   ensures[cached] old(tl.readp) < old(tl.writep) - 1 ==> result && tl.readp == old(tl.readp) + 1 && tl.writep == old(tl.writep) && eqv(tl.lexer, old(tl.lexer))
 //@   ensures[fetch]  old(tl.readp) == old(tl.writep) - 1 && result ==> tl.readp == old(tl.readp) + 1 && tl.writep == old(tl.writep) + 1
 //@       && tl.stack[tl.readp].token == tl.lexer.Token && tl.stack[tl.readp].err == tl.lexer.Err && tl.stack[tl.readp].from == tl.lexer.from && tl.stack[tl.readp].to == tl.lexer.to
@@ -70,6 +71,7 @@ package lexer
 //@   model cached := tl.writep
 //@   model depth := len(tl.pointers)
 //@   model saved(i int) := tl.pointers[i]
+//@   model inlen := len(tl.lexer.input)
 //@   model curFrom := tl.stack[tl.readp].from
 //@   model curTo := tl.stack[tl.readp].to
 //@   model curErr := tl.stack[tl.readp].err != nil
